@@ -301,7 +301,7 @@ class Ctx:
 
     _NT = re.compile(r'"act":"(?!pass)|"ty":"(stream_data_blocked|data_blocked|streams_blocked|reset_stream|stop_sending|max_stream_data|max_data|max_streams)"'
                      r'|"ev":"(packet_lost|app_reset|app_stop|rerr|werr|dropped|ctl|stall)"|"mutated":true|"drop_permille":[1-9]|"mode":"(lossy|vanish)"'
-                     r'|"blackhole":\[\[|"ok":false|"persistent":true|"ev":"(lost|ecn|push_full)"')
+                     r'|"blackhole":\[\[|"ok":false|"persistent":true|"ev":"(lost|ecn|push_full|lose|retire|timeout)"')
 
     def _count_runs(self, spec, f):
         """distinct non-trivial runs of a validated trace: a run is what lies between two reset events; it is non-trivial
